@@ -48,6 +48,9 @@ Definition newh (s : cstate) (m : M (option addr)) : M (cstate * out) :=
 
 Definition with1 (s : cstate) (h : nat) (f : addr -> M (cstate * out)) : M (cstate * out) :=
   match hget s h with Some a => f a | None => ret (s, OutSkip) end.
+(* for calls that would have produced a handle: the skipped call still occupies a (NULL) slot *)
+Definition with1h (s : cstate) (h : nat) (f : addr -> M (cstate * out)) : M (cstate * out) :=
+  match hget s h with Some a => f a | None => ret (hpush s None, OutSkip) end.
 Definition with2 (s : cstate) (h1 h2 : nat) (f : addr -> addr -> M (cstate * out)) : M (cstate * out) :=
   match hget s h1, hget s h2 with Some a, Some b => f a b | _, _ => ret (s, OutSkip) end.
 
@@ -63,9 +66,9 @@ Definition step (s : cstate) (o : op) : M (cstate * out) :=
   | ONewDefMap n => newh s (new_definite_map refuse n)
   | ONewIndefMap => newh s (new_indefinite_map refuse)
   | ONewTag v => newh s (new_tag refuse v)
-  | OBuildTag v x => with1 s x (fun a => newh s (build_tag refuse v a))
+  | OBuildTag v x => with1h s x (fun a => newh s (build_tag refuse v a))
   | OPush a x => with2 s a x (fun p q => b <- array_push refuse p q ;; ret (s, OutBool b))
-  | OGet a i => with1 s a (fun p => newh s (array_get p i))
+  | OGet a i => with1h s a (fun p => newh s (array_get p i))
   | OSet a i x => with2 s a x (fun p q => b <- array_set refuse p i q ;; ret (s, OutBool b))
   | OReplace a i x => with2 s a x (fun p q => b <- array_replace p i q ;; ret (s, OutBool b))
   | OMapAdd m k v =>
@@ -75,10 +78,10 @@ Definition step (s : cstate) (o : op) : M (cstate * out) :=
       end
   | OAddChunk c x => with2 s c x (fun p q => b <- add_chunk refuse p q ;; ret (s, OutBool b))
   | OTagSet t x => with2 s t x (fun p q => tag_set_item p q ;;; ret (s, OutUnit))
-  | OTagItem t => with1 s t (fun p => newh s (x <- tag_item p ;; ret (Some x)))
+  | OTagItem t => with1h s t (fun p => newh s (x <- tag_item p ;; ret (Some x)))
   | OIncref h => with1 s h (fun p => incref p ;;; ret (s, OutUnit))
   | ODecref h => with1 s h (fun p => decref p ;;; ret (s, OutUnit))
-  | OCopy h => with1 s h (fun p => newh s (copy_h refuse p))
+  | OCopy h => with1h s h (fun p => newh s (copy_h refuse p))
   | OLoad bytes =>
       r <- load_h refuse L bytes ;;
       match r with
